@@ -168,25 +168,7 @@ impl AggregateExecutionEngine {
                 if column_value.is_not_null() {
                     let group_value = self.get_group_value(group_key.clone(), aggregate_index, || Ok(column_value.clone()))?;
 
-                    match aggregate {
-                        Aggregate::Min(_) => {
-                            group_value.modify_same_type_numeric_nullable(
-                                &column_value,
-                                |x, y| { *x = (*x).min(y) },
-                                |x, y| { *x = (*x).min(y) },
-                                |x, y| { *x = (*x).min(y) }
-                            );
-                        }
-                        Aggregate::Max(_) => {
-                            group_value.modify_same_type_numeric_nullable(
-                                &column_value,
-                                |x, y| { *x = (*x).max(y) },
-                                |x, y| { *x = (*x).max(y) },
-                                |x, y| { *x = (*x).max(y) }
-                            );
-                        }
-                        _ => { unimplemented!(); }
-                    };
+                    fold_min_max(group_value, &column_value, matches!(aggregate, Aggregate::Min(_)));
                 } else {
                     self.get_group_value(group_key.clone(), aggregate_index, || Ok(Value::Null))?;
                 }
@@ -626,6 +608,21 @@ impl GroupAggregator {
             GroupAggregator::BoolOr { value } => value.is_none(),
             GroupAggregator::CountDistinct(_) => false
         }
+    }
+}
+
+// Folds a non-NULL value into the running MIN / MAX of its group, using the order of values (any type, not only numeric ones)
+fn fold_min_max(group_value: &mut Value, column_value: &Value, is_min: bool) {
+    let replace = if group_value.is_null() {
+        true
+    } else if is_min {
+        *column_value < *group_value
+    } else {
+        *column_value > *group_value
+    };
+
+    if replace {
+        *group_value = column_value.clone();
     }
 }
 
